@@ -28,6 +28,7 @@ type evalCtx struct {
 
 type Ev struct {
 	x     *X
+	now   *State
 	cur   *State
 	old   *State
 	scope []map[string]Val
@@ -38,7 +39,7 @@ type Ev struct {
 }
 
 func (x *X) newEv(s *State, ctx evalCtx) *Ev {
-	ev := &Ev{x: x, cur: s, old: x.entry, ctx: ctx, fn: x.fn}
+	ev := &Ev{x: x, cur: s, now: s, old: x.entry, ctx: ctx, fn: x.fn}
 	if ctx.old != nil {
 		ev.old = ctx.old
 	}
@@ -394,6 +395,9 @@ func (ev *Ev) deref(v Val) Val {
 			ev.errf("dereference of nil pointer in contract")
 		}
 		o, ok := ev.cur.objs[p.Obj]
+		if !ok && ev.now != nil {
+			o, ok = ev.now.objs[p.Obj] // object allocated after the old state was taken (e.g. a result mentioned inside old())
+		}
 		if !ok {
 			ev.errf("object %d does not exist in this state", p.Obj)
 		}
@@ -404,6 +408,18 @@ func (ev *Ev) deref(v Val) Val {
 		return pathGet(selV(ev.x.flat(ev.cur, ev.cur.arrs[p.ID]), p.Idx), p.Path)
 	case Iface:
 		if pp, ok := p.V.(Ptr); ok {
+			if pp.Obj == 0 && p.Kind != "" {
+				// a nil AuctionI (error paths): its fields are arbitrary values, so that "err == nil ==> result.F ..." can be written
+				if ev.x.junkAuction == nil {
+					rec := ev.x.auctionRecord(ev.cur, "nil.auction", idWrap)
+					flatRec := St{map[string]Val{}}
+					for k, f := range rec.F {
+						flatRec.F[k] = f
+					}
+					ev.x.junkAuction = flatRec
+				}
+				return ev.x.junkAuction
+			}
 			return ev.deref(pp)
 		}
 		return p.V
@@ -458,7 +474,11 @@ func (ev *Ev) field(base Val, f string) Val {
 				}
 			case Ptr:
 				if in.Obj != 0 {
-					if st, ok := ev.cur.objs[in.Obj].(St); ok {
+					ov, has := ev.cur.objs[in.Obj]
+					if !has && ev.now != nil {
+						ov = ev.now.objs[in.Obj]
+					}
+					if st, ok := ov.(St); ok {
 						if v, ok := pathGet(st, in.Path).(St).F[f]; ok {
 							return v
 						}
